@@ -16,6 +16,8 @@
 #include "Neigh/NeighUnique.hpp"
 #include "Simulation/CalcSimuTurningBands.hpp"
 #include "Simulation/CalcSimuFFT.hpp"
+#include "Estimation/CalcKriging.hpp"
+#include "Enum/EKrigOpt.hpp"
 #include "Simulation/SimuFFTParam.hpp"
 #include "API/SPDE.hpp"
 #include "LithoRule/Rule.hpp"
@@ -59,6 +61,8 @@ static Model* makeModel(const std::string& name)
     m = Model::createFromParam(ECov::SPHERICAL, 3., 1.7);
     m->addCovFromParam(ECov::NUGGET, 0., 0.3);
   }
+  else if (name == "bivgau")   // two variables, smooth (spectral turning bands)
+    m = Model::createFromParam(ECov::GAUSSIAN, 1.5, 1., 1., VectorDouble(), {1., 0.3, 0.3, 1.});
   else if (name == "biv")   // two variables: must make the monovariate simulators fail cleanly
     m = Model::createFromParam(ECov::SPHERICAL, 3., 1., 1., VectorDouble(), {1., 0.2, 0.2, 1.});
   else throw std::runtime_error("unknown model " + name);
@@ -160,6 +164,10 @@ static Result runCall(const Value& c)
   {
     law_set_random_seed(c.at("seed").i());
   }
+  else if (op == "setstyle")
+  {
+    law_set_old_style(c.getb("old", true));   // false: std::mt19937 and the std distributions
+  }
   else if (op == "tgb")
   {
     // truncated Gaussian draws; bounds in tenths, null = undefined
@@ -178,7 +186,8 @@ static Result runCall(const Value& c)
     NeighUnique* neigh = nullptr;
     if (cond)
     {
-      data = makePoints(c.at("data"), c.getd("data_dx", 0.), 1, {{"z", ELoc::Z}});
+      if (c.geti("nvar", 1) == 2) data = makePoints(c.at("data"), c.getd("data_dx", 0.), 2, {{"z1", ELoc::Z}, {"z2", ELoc::Z}});
+      else data = makePoints(c.at("data"), c.getd("data_dx", 0.), 1, {{"z", ELoc::Z}});
       applySel(data, c);
       if (!c.getb("noneigh", false)) neigh = NeighUnique::create();
     }
@@ -186,6 +195,9 @@ static Result runCall(const Value& c)
     int first;
     if (c.has("targets")) { out = makePoints(c.at("targets"), 0., 0, {}); first = out->getColumnNumber(); }
     else { out = makeGrid(c); first = out->getColumnNumber(); }
+    if (c.getb("krige", false))   // the kriging estimate of the same data on the same targets (simple kriging, known mean 0)
+      r.err = kriging(data, out, model, neigh, EKrigOpt::POINT, true, false);
+    else
     r.err = simtub(data, out, model, neigh, c.geti("nbsimu", 1), c.at("seed").i(), c.geti("nbtuba", 20));
     collect(out, first, r.vals, r.ncol, r.nrow);
     if (data != nullptr) r.extra["data_ncol_after"] = Value(data->getColumnNumber());
